@@ -121,6 +121,8 @@ static PROTO_LOG: Mutex<Vec<(u64, Proto)>> = Mutex::new(Vec::new());
 static WORKERS_DONE: AtomicU64 = AtomicU64::new(0);
 static ITERS_AFTER_DONE: AtomicU64 = AtomicU64::new(0);
 static GUARD_SLACK: AtomicU64 = AtomicU64::new(0);
+static IDLE_LIMIT: AtomicU64 = AtomicU64::new(0);
+static IDLE_ITERS: AtomicU64 = AtomicU64::new(0);
 
 static JITTER_MAX_US: AtomicU64 = AtomicU64::new(0);
 static JITTER_STATE: AtomicU64 = AtomicU64::new(0x9E37_79B9_7F4A_7C15);
@@ -165,7 +167,19 @@ pub fn proto_enable(guard_slack: u64) {
     WORKERS_DONE.store(0, Ordering::SeqCst);
     ITERS_AFTER_DONE.store(0, Ordering::SeqCst);
     GUARD_SLACK.store(guard_slack, Ordering::SeqCst);
+    IDLE_LIMIT.store(0, Ordering::SeqCst);
+    IDLE_ITERS.store(0, Ordering::SeqCst);
     PROTO_ON.store(true, Ordering::SeqCst);
+}
+
+/// Arms the second bound of the guard: if the reporter completes more than `limit` consecutive
+/// polling iterations during which no chain worker produced any protocol event, while not all
+/// workers have finished, the process exits with [`GUARD_EXIT_CODE`]. Only meaningful for
+/// workloads whose chains are known to report or finish well within `limit` polling intervals;
+/// 0 switches it off (the default, reset by [`proto_enable`]).
+pub fn proto_idle_limit(limit: u64) {
+    IDLE_ITERS.store(0, Ordering::SeqCst);
+    IDLE_LIMIT.store(limit, Ordering::SeqCst);
 }
 
 /// Stops recording protocol events and returns what was recorded, in sequence order.
@@ -188,8 +202,23 @@ pub fn proto_emit(e: Proto) {
     match e {
         Proto::WorkerDone => {
             WORKERS_DONE.fetch_add(1, Ordering::SeqCst);
+            IDLE_ITERS.store(0, Ordering::SeqCst);
+        }
+        Proto::Sent { .. } => {
+            IDLE_ITERS.store(0, Ordering::SeqCst);
         }
         Proto::ReporterIter { n_chains, .. } => {
+            let limit = IDLE_LIMIT.load(Ordering::SeqCst);
+            if limit > 0 && WORKERS_DONE.load(Ordering::SeqCst) < n_chains as u64 {
+                let idle = IDLE_ITERS.fetch_add(1, Ordering::SeqCst) + 1;
+                if idle > limit {
+                    println!(
+                        "VERIF-GUARD reporter polled {idle} times in a row without any chain worker making progress ({} of {n_chains} workers finished)",
+                        WORKERS_DONE.load(Ordering::SeqCst)
+                    );
+                    std::process::exit(GUARD_EXIT_CODE);
+                }
+            }
             let slack = GUARD_SLACK.load(Ordering::SeqCst);
             if slack > 0 && WORKERS_DONE.load(Ordering::SeqCst) >= n_chains as u64 {
                 let k = ITERS_AFTER_DONE.fetch_add(1, Ordering::SeqCst) + 1;
